@@ -15,6 +15,7 @@ estimator equals a fresh estimator fitted on the new data on every attribute AND
 attributes."""
 
 import itertools
+import os
 import warnings
 
 import numpy as np
@@ -31,7 +32,7 @@ RULE = (
     "(purity) or two different data variants (history); states = estimator / call states compared, transitions = calls"
 )
 ASSUMPTIONS = [
-    "arguments are compared byte-wise together with shape, dtype, strides and the writeable flag",
+    "arguments are compared byte-wise together with shape, dtype, strides and the writeable flag; the integer layout hands every data argument over as integer-valued int64 (values rounded to eighths and scaled)",
     "refit == fresh is compared with relative tolerance 1e-6 on every instance attribute that holds numbers, arrays, lists or nested estimators; opaque objects (closures, Qhull objects, interpolators) are compared by type only",
     "VoronoiFPS is run with an explicit switching point and, for the calibrated default, under three scripted clock outcomes (the 128 outcomes are C06's)",
     "documented in-place options (copy=False) are not exercised",
@@ -386,7 +387,8 @@ def _lay(arr, layout):
         big[sl] = arr
         return big[sl]
     if layout == "int":
-        return np.ascontiguousarray(arr).astype(np.int64)
+        # integer-valued data with an integer dtype (rounded to eighths, then scaled: the structure is kept)
+        return np.round(np.ascontiguousarray(arr) * 8.0).astype(np.int64)
     raise ValueError(layout)
 
 
@@ -410,7 +412,7 @@ def _layouts_for(name, val, entry):
     if isinstance(val, np.ndarray) or (isinstance(val, list) and val and isinstance(val[0], np.ndarray)):
         first = val if isinstance(val, np.ndarray) else val[0]
         outs = ["C", "ro", "view"] + (["F"] if first.ndim >= 2 else [])
-        if name in entry.get("int_ok", ()):
+        if name in entry.get("int_ok", ()) or name not in ("alphas", "cell", "cov", "w", "cut", "init", "tr", "te", "comp", "low"):
             outs.append("int")
         if first.dtype.kind in "iu":
             outs = [o for o in outs if o != "int"]
